@@ -81,6 +81,10 @@ def generate(tier, seed):
         if nm in selfloop: continue      # these evaluate their argument again: unbounded recursion, outside the claim
         reqs.append("(progn (setq sf '(%s sf sf)) (eval sf))" % nm)
         reqs.append("(progn (setq sf (list '%s 'sf)) (eval sf))" % nm)
+        # an argument expression that hands (part of) the form being evaluated to a function that walks or annotates lists
+        for inner in ["(macroexpand (cdr sf))", "(macroexpand sf)", "(append sf nil)", "(length sf)", "(equal sf (cdr sf))"]:
+            if nm in ("quote", "lambda", "defun", "defmacro", "declare"): continue
+            reqs.append("(progn (setq sf '(%s (progn %s 1) 2)) (eval sf))" % (nm, inner))
     # random programs with extreme numerals
     for _ in range(1500 if tier == "quick" else 40000):
         g = ProgGen(rng, max_depth=3, ticks=False, loops=False)   # literal replacement must not touch loop bounds
